@@ -156,7 +156,8 @@ func GetURLDeadline(ctx context.Context, dst []byte, url string, deadline time.T
 	// concurrent requests, since timed out requests on client side
 	// usually continue execution on the host.
 	go func() {
-		statusCodeCopy, bodyCopy, errCopy := doRequestFollowRedirectsBuffer(ctx, req, dst, url, c)
+		// (not into dst: after a timeout this goroutine goes on while dst is the caller's again)
+		statusCodeCopy, bodyCopy, errCopy := doRequestFollowRedirectsBuffer(ctx, req, nil, url, c)
 		ch <- clientURLResponse{
 			statusCode: statusCodeCopy,
 			body:       bodyCopy,
@@ -170,7 +171,7 @@ func GetURLDeadline(ctx context.Context, dst []byte, url string, deadline time.T
 		protocol.ReleaseRequest(req)
 		clientURLResponseChPool.Put(chv)
 		statusCode = resp.statusCode
-		body = resp.body
+		body = append(dst[:0], resp.body...)
 		err = resp.err
 	case <-tc.C:
 		body = dst
